@@ -1,9 +1,24 @@
 import LouModel
 
+/-- every model module that takes part in the line protocol exports
+    `handle? : List String → Option String`; first match wins -/
+def handlers : List (List String → Option String) := [
+  Lou.Proto.handle?
+]
+
+def handleLine (line : String) : String :=
+  match (line.trimAscii.toString.splitOn " ").filter (· != "") with
+  | [] => ""
+  | "CASE" :: id :: _ => s!"CASE {id}"
+  | toks =>
+    match handlers.findSome? (fun h => h toks) with
+    | some r => r
+    | none => "UNSUPPORTED"
+
 partial def loop (h : IO.FS.Stream) (out : IO.FS.Stream) : IO Unit := do
   let line ← h.getLine
   if line.isEmpty then return ()
-  let r := Lou.Proto.handle line
+  let r := handleLine line
   if !r.isEmpty then out.putStrLn r
   loop h out
 
